@@ -5,6 +5,7 @@ CONSTANTS
   Q = 1
   MaxInstr = 3
   MaxFail = 1
+  GatedFinish = FALSE
   Eager = FALSE
   RecoverUsesStatePin = TRUE
   StatusAllListsDirect = TRUE
